@@ -92,6 +92,12 @@ Theorem C15_encode_decode : forall hrp v r e,
 Proof. exact encode_decode. Qed.
 Print Assumptions C15_encode_decode.
 
+(* Decode then Encode: an accepted string re-encodes to its lower-case spelling *)
+Theorem C15_decode_encode : forall s hrp data, decode s = DOk hrp data ->
+  exists v r e, data = v :: r /\ encoding_of_version v = Some e /\ encode hrp data e = Some (map to_lower s).
+Proof. exact decode_encode. Qed.
+Print Assumptions C15_decode_encode.
+
 (* case rules *)
 Theorem C15_mixed_case_rejected : forall s a b,
   In a s -> is_lower_letter a = true -> In b s -> is_upper_letter b = true -> decode s = DErr.
